@@ -131,6 +131,23 @@ def _rename_probe(prop, seed):
     return ("rename-everything", "FAIL", f"analysis error on a pure rename: {err}")
 
 
+def _api_probe(prop, seed):
+    """The check on the mechanical API-evolution overlay (apiprobe.py): public
+    attributes behind properties, public methods renamed with forwarding aliases."""
+    from ..cli import run_property
+    from . import apiprobe
+
+    ov, n_enc, n_alias = apiprobe.overlay(seed)
+    if not ov:
+        return ("api-evolution", "stale", "")
+    code, chk, err = run_property(prop, "quick", 0, overlay=ov, write=False, quiet=True)
+    if code == 0:
+        return ("api-evolution", "ok", f"{n_enc} attributes encapsulated, {n_alias} methods renamed with forwarding aliases, silent")
+    if code == 1:
+        return ("api-evolution", "FAIL", "false alarm on mechanical encapsulation / aliasing: " + "; ".join(f"{f.rule} {f.message[:80]}" for f in chk.findings[:2]))
+    return ("api-evolution", "FAIL", f"analysis error on mechanical encapsulation / aliasing: {err}")
+
+
 def run_for_property(prop, seed=0, verbose=True):
     from .variants import VARIANTS
 
@@ -138,13 +155,13 @@ def run_for_property(prop, seed=0, verbose=True):
     if not vs:
         return 0, {"variants": 0}
     results, fails = run(vs, verbose=verbose)
-    rp = _rename_probe(prop, seed)
-    if verbose and rp[1] != "ok":
-        print(f"  selftest {rp[0]}: {rp[1]} {rp[2]}")
-    results.append(rp)
-    vs = vs + [{"id": rp[0], "kind": "refactor"}]
-    if rp[1] == "FAIL":
-        fails = fails + [rp]
+    for rp in (_rename_probe(prop, seed), _api_probe(prop, seed)):
+        if verbose and rp[1] != "ok":
+            print(f"  selftest {rp[0]}: {rp[1]} {rp[2]}")
+        results.append(rp)
+        vs = vs + [{"id": rp[0], "kind": "refactor"}]
+        if rp[1] == "FAIL":
+            fails = fails + [rp]
     summary = {
         "variants": len(vs),
         "mutants_detected": sum(1 for v, r in zip(vs, results) if v["kind"] == "mutant" and r[1] == "ok"),
